@@ -102,7 +102,11 @@ CHECKS["C09"] = dict(
         "Identifier escaping is modelled too (Escape/Model.v; the C / C++ / JS / Python keyword tables are regenerated from the formatters on every run): "
         "C09_escaped_is_not_a_keyword, C09_cpp_table_extends_c, C09_escape_collisions_are_the_recorded_class (two names collide iff one is a keyword k and "
         "the other k_), C09_escape_injective_refuted; tied to the code by a bridge whose parameters are named after, and whose methods are renamed to, "
-        "every word of the tables: emitted names compared in Coq, files compiled / parsed.",
+        "every word of the tables: emitted names compared in Coq, files compiled / parsed. "
+        "Headers/Cpp.v models the C++ headers (decl header: includes of by-value fields + forward declarations; impl header: own decl header first, "
+        "then every other mentioned type's impl header): C09_cpp_complete_before_body (every class complete before an inline body or field needs it, "
+        "for all reference graphs with acyclic by-value containment, cyclic impl includes included), C09_cpp_decl_names_declared; includes and forward "
+        "declarations of the generated .d.hpp / .hpp files are compared with the model in Coq.",
    note="Partial: the grammars of C/C++/JS/Rust are not modelled (the theorem is about declaration order under include guards, the compilers "
         "decide everything else). Two recorded findings (known_findings.txt): keyword-escape collision, parameter named `this`.",
    design="§5 C09")
@@ -158,7 +162,8 @@ CHECKS["C08"] = dict(
         "observation is compared with an independent python repr(C)/ABI-doc implementation and with the model in Coq. "
         "Layout/Result.v: the receive buffer of Option<S> / Result<S, E> returns is laid out like repr(C) DiplomatResult (C08_result_buffer_is_reprC; "
         "C08_result_buffer_unrepaired_refuted + C08_result_buffer_repair_is_conservative record the defect repaired in /repo, ebd2380); exercised for every "
-        "struct with five error structs of alignment 1..8, both outcomes, both ABIs.",
+        "struct with five error structs of alignment 1..8, both outcomes, both ABIs. The mock allocator returns dirty memory (second repaired defect, 20f97e6: "
+        "is_ok not written for absent optional fields; C08_absent_option_unrepaired_refuted).",
    note="No wasm32 Rust target in the sandbox: the legacy flattened argument list is checked against docs/wasm_abi_quirks.md, not rustc. Slices, "
         "opaque fields and 128-bit integers are not generated; one corner (2-scalar struct directly inside an aggregate with a union) is excluded. "
         "Trusted: Coq kernel+vm_compute, hand transcription, python spec, node.",
